@@ -103,6 +103,15 @@ Proof.
   apply bind_state_keeps. intros n t n' t' Hn Hst Ha. eapply node_add_binding_keeps_idle; eauto.
 Qed.
 
+(* the same over EVERY dimension, 'pods' included: the Binding re-check compares every key of the
+   request (second audit N1; for binds only -- the event theorems below are over guarded dimensions) *)
+Theorem bind_admission_all_dims c l k :
+  nodes_all (idle_all_ok eps) (c_nodes c) ->
+  nodes_all (idle_all_ok eps) (c_nodes (bind_state eps c (take k l))).
+Proof.
+  apply bind_state_keeps. intros n t n' t' Hn Hst Ha. eapply node_add_binding_keeps_idle_all; eauto.
+Qed.
+
 (* ... and the nodes stay within capacity in the full sense (future idle too) when nothing is
    pipelined beyond what is releasing, as on every node of the scheduler cache *)
 Definition cache_node_ok (n : node) : Prop := node_within_capacity eps n /\ pip_le_rel n.
